@@ -90,6 +90,29 @@ theorem accept_rangeproofs_nonnil {rps : List (Int × List (Option RangeProof))}
   rw [hrps] at hR
   exact hR
 
+
+/-- (used by C12) Under the hypotheses of `accept_rangeproofs_lookup`: every commitment `C_i` of
+    the range proof is present and a unit modulo `n` (`0 < C_i < n`, `gcd(C_i, n) = 1`), and all
+    of its responses `d_i`, `v_i`, `v5` are present and non-negative; the hidden response it is
+    tied to is non-negative as well. -/
+theorem accept_rangeproof_units {rps : List (Int × List (Option RangeProof))}
+    (h : p.verifyWith o kid pk ctx nonce issig i1 i2 = .ok true) (hrps : p.rangeProofs = some rps)
+    {index : Int} {proofs : List (Option RangeProof)} (hl : rps.lookup index = some proofs)
+    {rp : RangeProof} (hrp : some rp ∈ proofs) :
+    (∀ c ∈ rp.cs, ∃ x, c = some x ∧ 0 < x ∧ x < pk.n ∧ Int.gcd x pk.n = 1) ∧
+    (∀ d ∈ rp.ds, ∃ x, d = some x ∧ 0 ≤ x) ∧ (∀ v ∈ rp.vs, ∃ x, v = some x ∧ 0 ≤ x) ∧
+    (∃ x, rp.v5 = some x ∧ 0 ≤ x) ∧ (∃ m, p.aResponses.get index = some m ∧ 0 ≤ m) := by
+  obtain ⟨_, s, _, hv⟩ := ProofD.accept_rangeproofs_lookup h hrps hl hrp
+  exact RangeStructure.verifyProofStructure_units hv
+
+/-- (used by C11) The non-revocation proof of an accepted disclosure proof has bases `C_r`, `C_u`
+    that are present and units modulo `n`. -/
+theorem accept_nonrev_units {nr : NonRevProof}
+    (h : p.verifyWith o kid pk ctx nonce issig i1 i2 = .ok true) (hnr : p.nonrev = some nr) :
+    ∃ cr cu, nr.cr = some cr ∧ nr.cu = some cu ∧
+      0 < cr ∧ cr < pk.n ∧ Int.gcd cr pk.n = 1 ∧ 0 < cu ∧ cu < pk.n ∧ Int.gcd cu pk.n = 1 := by
+  obtain ⟨cr, cu, h1, h2, ⟨a1, a2, a3⟩, ⟨b1, b2, b3⟩⟩ := ProofD.accept_nonrev_units h hnr
+  exact ⟨cr, cu, h1, h2, a1, a2, a3, b1, b2, b3⟩
 end
 
 /-! ### non-vacuity: a concrete accepted proof
@@ -187,3 +210,5 @@ end Gabi.C01
 #print axioms Gabi.C01.accept_rangeproofs_lookup
 #print axioms Gabi.C01.accept_rangeproofs_checked
 #print axioms Gabi.C01.accept_rangeproofs_nonnil
+#print axioms Gabi.C01.accept_rangeproof_units
+#print axioms Gabi.C01.accept_nonrev_units
